@@ -34,11 +34,11 @@ class DeterministicShortestPathProblem(MarkovDecisionProcess):
         class DeterministicShortestPathProblemFromMDP(DeterministicShortestPathProblem):
             def __init__(self): pass
             def initial_state(self):
-                initial_state = tuple(mdp.initial_state_dist().support)
+                initial_state = tuple(s for s, p in mdp.initial_state_dist().items() if p > 0)
                 assert len(initial_state) == 1, "MDP has non-deterministic initial state"
                 return initial_state[0]
             def next_state(self, s, a):
-                next_state = tuple(mdp.next_state_dist(s, a).support)
+                next_state = tuple(ns for ns, p in mdp.next_state_dist(s, a).items() if p > 0)
                 assert len(next_state) == 1, "MDP has non-deterministic transition function"
                 return next_state[0]
         DeterministicShortestPathProblemFromMDP.actions = staticmethod(mdp.actions)
